@@ -239,7 +239,7 @@ def _plan(tier):
                                              "op": o, "from": 0, "to": 10 ** 6, "nalpha": 0})
     for depth in ([10, 100, 500, 990, 1100, 2000] if tier != "thorough" else [10, 50, 100, 300, 500, 800, 950, 990, 1000, 1100, 1500, 2000]):
         for v in (0, 1, 2, 3):
-            for shape in ("json-list", "json-dict", "O-chain", "U-chain", "json-set"):
+            for shape in ("json-list", "json-dict", "O-chain", "U-chain", "U-twice", "json-set"):
                 plan.append({"kind": "deep", "shape": shape, "depth": depth, "vlevel": v})
     for d in range(len(API_DOCS)):
         for v in (0, 1, 2, 3):
@@ -681,6 +681,11 @@ def deep_text(shape, depth):
         return ["S\tA\t4\t*", "O\to0\tA+"] + ["O\to%d\to%d+" % (i, i - 1) for i in range(1, depth + 1)]
     if shape == "U-chain":
         return ["S\tA\t4\t*", "U\tu0\tA"] + ["U\tu%d\tu%d" % (i, i - 1) for i in range(1, depth + 1)]
+    if shape == "U-twice":
+        # every set lists its subset twice (and the sets two levels down once more): expanding every mention is exponential
+        d = min(depth, 60)
+        return ["S\tA\t4\t*", "S\tB\t4\t*", "U\tu0\tA B"] + \
+               ["U\tu%d\tu%d u%d%s" % (i, i - 1, i - 1, " u%d" % (i - 2) if i >= 2 else "") for i in range(1, d + 1)]
 
 
 def probe_deep(P, shape, depth, vlevel):
@@ -716,7 +721,7 @@ def probe_deep(P, shape, depth, vlevel):
         return
     P.call("Gfa.validate() (%s)" % ctx, shown, g.validate)
     P.call("str(Gfa) (%s)" % ctx, shown, str, g)
-    top = ("o%d" if shape == "O-chain" else "u%d") % depth
+    top = ("o%d" if shape == "O-chain" else "u%d") % (min(depth, 60) if shape == "U-twice" else depth)
     st, l = P.call("Gfa.line(top) (%s)" % ctx, shown, g.line, top)
     if st == "ok" and l is not None:
         if shape == "O-chain":
